@@ -134,9 +134,11 @@ class World:
             elif op == "feed":
                 self._feed(ev["c"], ev["it"], ev["id"])
             elif op == "dsend":
-                self.router.process_message(M.Message(device="D", message=f"m{ev['id']}"), sender=self.dev)
+                # (a `big` message is longer than any plausible chunk size: a write must still be one whole message)
+                self.router.process_message(M.Message(device="D", message=f"m{ev['id']}", timestamp=("t" * 70000 if ev.get("big") else None)),
+                                            sender=self.dev)
             elif op == "csend":
-                self.conn[ev["c"]]["handler"].send_message(M.GetProperties(version="1.7", device=f"m{ev['id']}"))
+                self.conn[ev["c"]]["handler"].send_message(M.GetProperties(version="1.7", device=f"m{ev['id']}", name=("n" * 70000 if ev.get("big") else None)))
             elif op == "complete":
                 k = self.conn[ev["c"]]
                 p = (k["stdout"] if k["kind"] == "tty" else k["writer"]).pending[ev["i"] - 1]
@@ -220,7 +222,7 @@ def run_script(script: List[dict]) -> List[dict]:
 
 
 # ------------------------------------------------------------------ exhaustive exploration of completion orders (C19)
-def explore_bursts(kind: str, nconn: int, nmsgs: int, budget: int, r, allow_fail: bool) -> List[List[dict]]:
+def explore_bursts(kind: str, nconn: int, nmsgs: int, budget: int, r, allow_fail: bool, big: bool = False) -> List[List[dict]]:
     """DFS over all schedules: next message routed / one loop iteration / any outstanding awaitable completes (or, once,
     fails).  Each maximal path is re-executed from scratch on fresh real objects."""
     conns = CONNS[:nconn]
@@ -234,10 +236,11 @@ def explore_bursts(kind: str, nconn: int, nmsgs: int, budget: int, r, allow_fail
         options: List[Tuple[dict, int, int]] = []
         if sent < nmsgs:
             nid = sent + 1
+            extra = {"big": 1} if big and nid == 1 else {}
             if kind == "cli":
-                options.append(({"op": "csend", "c": conns[sent % nconn], "id": nid}, sent + 1, fails))
+                options.append(({"op": "csend", "c": conns[sent % nconn], "id": nid, **extra}, sent + 1, fails))
             else:
-                options.append(({"op": "dsend", "id": nid}, sent + 1, fails))
+                options.append(({"op": "dsend", "id": nid, **extra}, sent + 1, fails))
         if last["ready"]:
             options.append(({"op": "tick"}, sent, fails))
         for c in conns:
@@ -443,6 +446,7 @@ def run(prop: str, tier: str) -> int:
         for kind in ("tcp", "tty", "cli"):
             for nconn, nmsgs in ([(1, 2), (1, 3), (2, 2)] if tier == "quick" else [(1, 2), (1, 3), (1, 4), (2, 2), (2, 3), (3, 2), (1, 5)]):
                 traces += explore_bursts(kind, nconn, nmsgs, budget, r, allow_fail=True)
+            traces += explore_bursts(kind, 1, 2, max(20, budget // 10), r, allow_fail=False, big=True)
             traces.append(stalled_connection(kind, r))
         v.notes["burst_schedules"] = len(traces)
     if prop == "C18" or tier == "thorough":
@@ -481,7 +485,7 @@ def run(prop: str, tier: str) -> int:
     for rj in rej[:25]:
         ev = rj.trace[rj.matched] if rj.matched < len(rj.trace) else None
         v.violation(f"real handlers violate the C18/C19 contract (and leave Transport.tla) at step #{rj.matched + 1}: {json.dumps(ev)[:500]}",
-                    {"kind": "transport-trace", "script": [{k: e[k] for k in e if k in ("op", "c", "k", "it", "id", "i", "fail")} for e in rj.trace],
+                    {"kind": "transport-trace", "script": [{k: e[k] for k in e if k in ("op", "c", "k", "it", "id", "i", "fail", "big")} for e in rj.trace],
                      "rejected_step": rj.matched, "observed": ev})
     if len(rej) > 25:
         v.violations.extend(["(more)"] * (len(rej) - 25))
